@@ -1,10 +1,11 @@
-//verif:pkg mosn.io/mosn/pkg/protocol/xprotocol/bolt
-package bolt
+//verif:pkg mosn.io/mosn/pkg/protocol/xprotocol/boltv2
+package boltv2
 
 import (
 	"context"
 
 	"mosn.io/api"
+	"mosn.io/mosn/pkg/protocol/xprotocol/bolt"
 	"mosn.io/mosn/pkg/zzverif/verif"
 	"mosn.io/pkg/buffer"
 	"mosn.io/pkg/variable"
@@ -20,17 +21,17 @@ func zzReadBuffer(s []byte) api.IoBuffer {
 	return buffer.NewIoBufferBytes(verif.WithStaleCap(s, 64))
 }
 
-// VerifC08_BoltArbitrary: arbitrary bytes into the bolt decoder.
-func VerifC08_BoltArbitrary() {
+// VerifC08_BoltV2Arbitrary: arbitrary bytes into the bolt decoder.
+func VerifC08_BoltV2Arbitrary() {
 	verif.NoPanic()
 	n := verif.Len("n", 0, verif.Param("N", 32, 48))
 	s := verif.Bytes("s", n)
 	verif.AllocLimit(n + 64)
 	if n > 0 {
-		verif.Assume(s[0] != 0x02) // 0x02 is delegated to the boltv2 codec (own harness)
+		verif.Assume(s[0] != 0x01) // 0x01 is delegated to the bolt v1 codec (own harness)
 	}
 	buf := zzReadBuffer(s)
-	frame, err := boltProtocol{}.Decode(zzCtx(), buf)
+	frame, err := boltv2Protocol{}.Decode(zzCtx(), buf)
 	left := buf.Len()
 	switch {
 	case frame == nil && err == nil:
@@ -62,7 +63,7 @@ func zzDecodeAll(ctx context.Context, buf api.IoBuffer, max int) (recs []zzRec, 
 			return
 		}
 		before := buf.Len()
-		frame, err := boltProtocol{}.Decode(ctx, buf)
+		frame, err := boltv2Protocol{}.Decode(ctx, buf)
 		if frame == nil && err == nil {
 			return
 		}
@@ -94,13 +95,13 @@ func zzSameRecs(a, b []zzRec) bool {
 	return true
 }
 
-// VerifC07_BoltCut: delivering a byte stream in two chunks yields the same
+// VerifC07_BoltV2Cut: delivering a byte stream in two chunks yields the same
 // frames as delivering it whole; an incomplete frame consumes nothing.
-func VerifC07_BoltCut() {
+func VerifC07_BoltV2Cut() {
 	n := verif.Len("n", 0, verif.Param("N", 28, 46))
 	s := verif.Bytes("s", n)
 	if n > 0 {
-		verif.Assume(s[0] != 0x02)
+		verif.Assume(s[0] != 0x01)
 	}
 	whole, wfail := zzDecodeAll(zzCtx(), zzReadBuffer(s), 4)
 	verif.Assume(!wfail)
@@ -128,7 +129,7 @@ func VerifC07_BoltCut() {
 	verif.Cover("end")
 }
 
-// zzFrame builds one well-formed bolt v1 frame from the documented layout
+// zzFrame builds one well-formed bolt v2 frame from the documented layout
 // (protocol.go): the shape (type, class/header/content lengths) is a forked
 // choice, every other byte is symbolic.
 func zzFrame(tag string, rich bool) []byte {
@@ -154,11 +155,11 @@ func zzFrame(tag string, rich bool) []byte {
 	b[0] = ProtocolCode
 	switch kind {
 	case 0:
-		b[1] = CmdTypeRequest
+		b[2] = bolt.CmdTypeRequest
 	case 1:
-		b[1] = CmdTypeRequestOneway
+		b[2] = bolt.CmdTypeRequestOneway
 	default:
-		b[1] = CmdTypeResponse
+		b[2] = bolt.CmdTypeResponse
 	}
 	o := meta - 8 // classLen(2) headerLen(2) contentLen(4) end the fixed part
 	b[o], b[o+1] = 0, byte(cl)
@@ -172,9 +173,9 @@ func zzFrame(tag string, rich bool) []byte {
 	return b
 }
 
-// VerifC07_BoltStream: a concatenation of well-formed frames, cut at an
+// VerifC07_BoltV2Stream: a concatenation of well-formed frames, cut at an
 // arbitrary offset, yields exactly those frames, in order, each once.
-func VerifC07_BoltStream() {
+func VerifC07_BoltV2Stream() {
 	nf := 2
 	var s []byte
 	var lens []int
@@ -217,7 +218,7 @@ func VerifC07_BoltStream() {
 }
 
 // zzIDField is where the documented layout keeps the request id.
-const zzIDField = 5
+const zzIDField = 6
 
 func zzCheckForwarded(out, orig []byte, id uint64) {
 	verif.Assert(len(out) == len(orig), "forwarded frame length differs from the received frame")
@@ -235,15 +236,15 @@ func zzCheckForwarded(out, orig []byte, id uint64) {
 	verif.Assert(diff == 0, "forwarded bytes differ from the received bytes outside the request-id field")
 }
 
-// VerifC01_BoltFast: decode, retarget the request id, encode: byte identity,
+// VerifC01_BoltV2Fast: decode, retarget the request id, encode: byte identity,
 // even when the connection's read buffer is reused in between.
-func VerifC01_BoltFast() {
+func VerifC01_BoltV2Fast() {
 	f := zzFrame("f", true)
 	orig := append([]byte{}, f...)
 	rb := verif.WithStaleCap(f, 64)
 	buf := buffer.NewIoBufferBytes(rb)
 	ctx := zzCtx()
-	frame, err := boltProtocol{}.Decode(ctx, buf)
+	frame, err := boltv2Protocol{}.Decode(ctx, buf)
 	verif.Assert(frame != nil && err == nil, "well-formed frame must decode")
 	if frame == nil {
 		return
@@ -251,7 +252,7 @@ func VerifC01_BoltFast() {
 	id := verif.U64("id")
 	frame.(api.XFrame).SetRequestId(id)
 	verif.Havoc(rb) // the read buffer is reused by the next read
-	out, err := boltProtocol{}.Encode(ctx, frame)
+	out, err := boltv2Protocol{}.Encode(ctx, frame)
 	verif.Assert(err == nil && out != nil, "encode of an unmodified frame failed")
 	if out == nil {
 		return
@@ -262,13 +263,13 @@ func VerifC01_BoltFast() {
 
 type zzKV struct{ k, v string }
 
-// VerifC01_BoltSlow: one header or body mutation, then Encode and Decode
+// VerifC01_BoltV2Slow: one header or body mutation, then Encode and Decode
 // again: what is on the wire is exactly the modified frame, with length
 // fields that match.
-func VerifC01_BoltSlow() {
+func VerifC01_BoltV2Slow() {
 	f := zzFrame("f", true)
 	ctx := zzCtx()
-	frame, err := boltProtocol{}.Decode(ctx, buffer.NewIoBufferBytes(verif.WithStaleCap(f, 64)))
+	frame, err := boltv2Protocol{}.Decode(ctx, buffer.NewIoBufferBytes(verif.WithStaleCap(f, 64)))
 	verif.Assert(frame != nil && err == nil, "well-formed frame must decode")
 	if frame == nil {
 		return
@@ -334,13 +335,13 @@ func VerifC01_BoltSlow() {
 	}
 	id := verif.U64("id")
 	xf.SetRequestId(id)
-	out, err := boltProtocol{}.Encode(ctx, frame)
+	out, err := boltv2Protocol{}.Encode(ctx, frame)
 	verif.Assert(err == nil && out != nil, "encode of a modified frame failed")
 	if out == nil {
 		return
 	}
 	wire := append([]byte{}, out.Bytes()...)
-	frame2, err := boltProtocol{}.Decode(zzCtx(), buffer.NewIoBufferBytes(verif.WithStaleCap(wire, 64)))
+	frame2, err := boltv2Protocol{}.Decode(zzCtx(), buffer.NewIoBufferBytes(verif.WithStaleCap(wire, 64)))
 	verif.Assert(frame2 != nil && err == nil, "re-encoded frame does not decode")
 	if frame2 == nil {
 		return
